@@ -506,8 +506,8 @@ func (w *Worker) sliceToArrayPointer(fr *frame, tdst types.Type, x Value) Value 
 }
 
 func (w *Worker) makeSlice(fr *frame, instr *ssa.MakeSlice, ln, cp Value) Value {
-	lt := w.asTerm(ln, "make len")
-	ct := w.asTerm(cp, "make cap")
+	lt := w.idx64(fr, ln, instr.Len.Type())
+	ct := w.idx64(fr, cp, instr.Cap.Type())
 	w.checkAlloc(fr, ct)
 	if !lt.IsConst() && lt == ct {
 		if sv, ok := w.makeSymSlice(fr, instr, lt); ok {
@@ -598,18 +598,18 @@ func (w *Worker) slice(fr *frame, instr *ssa.Slice, x, lo, hi, max Value) Value 
 	// bounds: 0 <= lo <= hi <= max <= cap  (for strings hi <= len)
 	loT := T.Const(64, 0)
 	if lo != nil {
-		loT = w.asTerm(lo, "slice lo")
+		loT = w.idx64(fr, lo, instr.Low.Type())
 	}
 	hiT := T.Const(64, uint64(Len))
 	if sl.SymLen != nil {
 		hiT = sl.SymLen
 	}
 	if hi != nil {
-		hiT = w.asTerm(hi, "slice hi")
+		hiT = w.idx64(fr, hi, instr.High.Type())
 	}
 	maxT := T.Const(64, uint64(Cap))
 	if max != nil {
-		maxT = w.asTerm(max, "slice max")
+		maxT = w.idx64(fr, max, instr.Max.Type())
 	}
 	limit := Cap
 	if str != nil {
